@@ -19,11 +19,12 @@ TWO_PI_D = 2 * PI_D
 
 RULE = ("cases from rng(seed, 11, 0, i), mode = i mod 5: (0) SE(2) chain and (1) SE(3) chain of L mixed operations (+, -, inverse, copy, boxplus, constructor, from_matrix), "
         "L = 400 (quick) / up to 10^4 (thorough), operands hostile (angles to 1e6, both sides of +-pi, nextafter(pi); quaternions w<0, w=0, 180 deg); (2) optimizer runs of 1..50 "
-        "iterations on SE(2)/SE(3) graphs (converging and diverging) checked after every iteration; (3) loader lines with hostile angles / non-unit measurement quaternions; "
-        "(4) normalize() on quaternions of norm 1e-3..1e3. distinct = fingerprint of the chain's operand stream / graph; non-trivial = chain with >= 50 operations "
+        "iterations on SE(2)/SE(3) graphs (converging and diverging), driven iteration by iteration (checked after each) or as one call (checked at the end); (3) loader lines with hostile angles / non-unit measurement quaternions; "
+        "(4) normalize() on quaternions of norm 1e-3..1e3, incl. exactly / almost unit ones with w<0. distinct = fingerprint of the chain's operand stream / graph; non-trivial = chain with >= 50 operations "
         "or an optimizer run with >= 1 completed iteration or a loader/normalize case with a non-canonical input.")
 REQ = ["eval:se2-angle-in-range", "eval:se2-angle-congruent", "eval:se3-unit-norm", "eval:normalize-postcondition", "eval:optimizer-vertex-invariant", "eval:loader-angle", "mode:0", "mode:1",
-       "mode:2", "mode:3", "mode:4", "class:angle_huge", "class:angle_nearpi", "class:op:boxplus", "class:op:inverse", "class:op:sub", "class:diverging_run"]
+       "mode:2", "mode:3", "mode:4", "class:angle_huge", "class:angle_nearpi", "class:op:boxplus", "class:op:inverse", "class:op:sub", "class:diverging_run", "class:single_call_run_10+_iterations", "class:iteration_by_iteration_run", "class:normalize_input:unit_wneg",
+       "class:normalize_input:almost_unit_wneg"]
 PLAN = {
     "quick": {"cases": 1000, "soft_s": 70, "min_nontrivial": 300, "require": REQ},
     "thorough": {"cases": 12000, "soft_s": 1500, "min_nontrivial": 3000, "require": REQ},
@@ -161,9 +162,13 @@ def optimizer_run(ctx, rng):
     if diverge:
         ctx.count("class:diverging_run")
     done = 0
-    for j in range(iters):
+    single_call = bool(rng.random() < 0.5)
+    ctx.count("class:single_call_run" if single_call else "class:iteration_by_iteration_run")
+    if single_call and iters >= 10:
+        ctx.count("class:single_call_run_10+_iterations")
+    for j in ([iters - 1] if single_call else range(iters)):
         try:
-            M.quiet_optimize(g, max_iter=1, tol=0.0)
+            M.quiet_optimize(g, max_iter=(iters if single_call else 1), tol=0.0)
         except Exception as ex:
             ctx.count("optimizer_exception:" + type(ex).__name__)
             break
@@ -203,7 +208,7 @@ def loader_case(ctx, rng):
     check_se2(ctx, p.value, Decimal(a2), abs(a2), "loader-param", {"angle": a2})
     # SE(3) measurement: renormalised by the loader
     q = rng.normal(size=4)
-    q *= float(10 ** rng.uniform(-2, 2)) / np.linalg.norm(q)
+    q *= float(rng.choice([1.0, 1.0 + 1e-6, 10 ** rng.uniform(-2, 2)])) / np.linalg.norm(q)
     line3 = "EDGE_SE3:QUAT 1 2 1 2 3 %r %r %r %r " % tuple(float(x) for x in q) + " ".join(["1"] * 21) + "\n"
     e3 = M.EdgeOdometry.from_g2o(line3)
     check_normalized(ctx, M.fl(e3.estimate), [1.0, 2.0, 3.0] + [float(x) for x in q], "loader-edge-se3")
@@ -221,12 +226,15 @@ def check_normalized(ctx, out, inp, where):
 
 def normalize_case(ctx, rng):
     q = rng.normal(size=4)
-    cl = rng.choice(["generic", "wneg", "wzero", "tiny", "large"])
-    if cl == "wneg":
+    cl = rng.choice(["generic", "wneg", "wzero", "tiny", "large", "unit_wneg", "almost_unit_wneg", "almost_unit"])
+    if cl in ("wneg", "unit_wneg", "almost_unit_wneg"):
         q[3] = -abs(q[3])
     if cl == "wzero":
         q[3] = 0.0
-    q *= {"tiny": 1e-3, "large": 1e3}.get(str(cl), float(10 ** rng.uniform(-1, 1))) / np.linalg.norm(q)
+    scale = {"tiny": 1e-3, "large": 1e3, "unit_wneg": 1.0, "almost_unit_wneg": 1.0 + float(rng.choice([-1, 1]) * 10 ** rng.uniform(-15, -4)),
+             "almost_unit": 1.0 + float(rng.choice([-1, 1]) * 10 ** rng.uniform(-15, -4))}.get(str(cl), float(10 ** rng.uniform(-1, 1)))
+    q *= scale / np.linalg.norm(q)
+    ctx.count("class:normalize_input:" + str(cl))
     t = [float(x) for x in rng.normal(size=3) * 10]
     P = M.PoseSE3(t, [float(x) for x in q])
     inp = M.fl(P)
